@@ -13,7 +13,7 @@ def fileProgs : Progs := fun op => match op with
 
 /-- lock operations of the `keepalive` backend as extracted from the real class (jug/backends) -/
 def keepaliveProgs : Progs := fun op => match op with
-  | .get => (.prim .stat [(.err, (.prim .exists_ [(.yes, (.ret (.bool false))), (.no, (.prim .openExcl [(.ok, (.ret (.bool true))), (.err, (.ret (.bool false)))]))])), (.normal, (.prim .exists_ [(.yes, (.ret (.bool false))), (.no, (.prim .openExcl [(.ok, (.ret (.bool true))), (.err, (.ret (.bool false)))]))])), (.marked, (.prim .exists_ [(.yes, (.ret (.bool false))), (.no, (.prim .openExcl [(.ok, (.ret (.bool true))), (.err, (.ret (.bool false)))]))])), (.expired, (.prim .unlink [(.ok, (.prim .exists_ [(.yes, (.ret (.bool false))), (.no, (.prim .openExcl [(.ok, (.ret (.bool true))), (.err, (.ret (.bool false)))]))])), (.err, (.prim .exists_ [(.yes, (.ret (.bool false))), (.no, (.prim .openExcl [(.ok, (.ret (.bool true))), (.err, (.ret (.bool false)))]))]))]))])
+  | .get => (.prim .exists_ [(.yes, (.ret (.bool false))), (.no, (.prim .openExcl [(.ok, (.ret (.bool true))), (.err, (.ret (.bool false)))]))])
   | .release => (.prim .unlink [(.ok, (.ret .none)), (.err, (.ret .none))])
   | .isLocked => (.prim .exists_ [(.yes, (.ret (.bool true))), (.no, (.ret (.bool false)))])
   | .fail => (.prim .utimeFailed [(.ok, (.ret (.bool true))), (.err, (.ret (.bool false)))])
